@@ -54,6 +54,7 @@ type models struct {
 	// ghost log lines for the leak check
 	logArgs []Value
 	// json tokens
+	jsonDocs []*jnode
 }
 
 type knownClass struct {
